@@ -6,6 +6,7 @@ literal, ``t_*`` regex docstrings); ``ply.yacc`` is then used as a *table genera
 (never on the repository's live objects): ``Grammar`` + ``LRGeneratedTable('LALR')``.
 """
 import ast
+import re
 import os
 
 from .model import AnalysisError
@@ -31,6 +32,38 @@ class Production(object):
 
     def __repr__(self):
         return '%s -> %s' % (self.name, ' '.join(self.syms) or '<empty>')
+
+
+class TokenRegex(str):
+    """Text of a lexer rule; ply compiles token rules with re.VERBOSE (lex.lex's default reflags)."""
+    flags = re.VERBOSE
+
+
+def const_string(module, node, depth=0):
+    """Value of a constant string expression: literals, module-level names, concatenation (None if it is not one)."""
+    if depth > 60:
+        return None
+    if isinstance(node, ast.Constant) and isinstance(node.value, str):
+        return node.value
+    if isinstance(node, ast.Name) and node.id in module.constants and module.assign_counts.get(node.id, 0) == 1:
+        return const_string(module, module.constants[node.id], depth + 1)
+    if isinstance(node, ast.BinOp) and isinstance(node.op, ast.Add):
+        a, b = const_string(module, node.left, depth + 1), const_string(module, node.right, depth + 1)
+        return None if a is None or b is None else a + b
+    if isinstance(node, ast.JoinedStr):
+        parts = []
+        for v in node.values:
+            if isinstance(v, ast.Constant):
+                parts.append(str(v.value))
+            elif isinstance(v, ast.FormattedValue) and v.conversion == -1 and v.format_spec is None:
+                x = const_string(module, v.value, depth + 1)
+                if x is None:
+                    return None
+                parts.append(x)
+            else:
+                return None
+        return ''.join(parts)
+    return None
 
 
 class Token(object):
@@ -64,7 +97,9 @@ class Grammar(object):
         cands = []
         for m in model.modules.values():
             for c in m.classes.values():
-                own = [n for n in c.body if isinstance(n, ast.FunctionDef) and n.name.startswith('p_')]
+                # the actions may live on the class itself or on bases / mixins it combines
+                own = [n for (_, bc) in model.mro(m, c) for n in bc.body
+                       if isinstance(n, ast.FunctionDef) and n.name.startswith('p_') and n.name != 'p_error']
                 if own:
                     cands.append((m, c))
         if not cands:
@@ -107,14 +142,24 @@ class Grammar(object):
         funcs, strs = [], []
         for node in lm.tree.body:
             if isinstance(node, ast.FunctionDef) and node.name.startswith('t_') and node.name not in ('t_error', 't_eof', 't_ignore'):
-                doc = ast.get_docstring(node, clean=False)
+                doc = None
+                for d in node.decorator_list:
+                    # @TOKEN(<constant string expression>) sets the rule's regex (ply.lex.TOKEN)
+                    if isinstance(d, ast.Call) and (isinstance(d.func, ast.Name) and d.func.id in ('TOKEN', 'Token') or
+                                                    isinstance(d.func, ast.Attribute) and d.func.attr in ('TOKEN', 'Token')) and len(d.args) == 1:
+                        doc = const_string(lm, d.args[0])
+                        if doc is None:
+                            raise AnalysisError('regex of token rule %s is not a constant string expression' % node.name)
+                if doc is None:
+                    doc = ast.get_docstring(node, clean=False)
                 if doc is None:
                     continue
-                funcs.append((node.lineno, node.name[2:], doc, node))
+                funcs.append((node.lineno, node.name[2:], TokenRegex(doc), node))
             elif isinstance(node, ast.Assign) and len(node.targets) == 1 and isinstance(node.targets[0], ast.Name) \
-                    and node.targets[0].id.startswith('t_') and node.targets[0].id not in ('t_ignore',) \
-                    and isinstance(node.value, ast.Constant) and isinstance(node.value.value, str):
-                strs.append((node.targets[0].id[2:], node.value.value, node))
+                    and node.targets[0].id.startswith('t_') and node.targets[0].id not in ('t_ignore',):
+                val = const_string(lm, node.value)
+                if val is not None:
+                    strs.append((node.targets[0].id[2:], TokenRegex(val), node))
         funcs.sort(key=lambda x: x[0])
         strs.sort(key=lambda x: -len(x[1]))
         out = []
